@@ -191,29 +191,30 @@ impl<V: Clone> CacheRing<V> {
     pub fn put(&self, key: &str, value: V, cost: f64, size_bytes: usize) {
         let key_hash = Self::hash_key(key);
 
+        // Look up, pick a slot and insert under one critical section. Doing the lookup and
+        // the slot search under separate locks let two concurrent puts of the same new key
+        // (or of two keys that picked the same empty slot) both insert: the index then pointed
+        // at one entry while the other stayed in its slot forever, still listed by scans after
+        // the key was deleted.
+        let mut slots = self.slots.write();
+        let mut index = self.index.write();
+
         // Check if key already exists and update in place
-        {
-            let existing_slot = self.index.read().get(&key_hash).copied();
-            if let Some(slot_idx) = existing_slot {
-                let mut slots = self.slots.write();
-                if let Some(ref mut entry) = slots[slot_idx] {
-                    if entry.key == key {
-                        entry.value = value;
-                        entry.last_access = Instant::now();
-                        entry.access_count += 1;
-                        entry.cost = cost;
-                        entry.size_bytes = size_bytes;
-                        return;
-                    }
+        if let Some(&slot_idx) = index.get(&key_hash) {
+            if let Some(ref mut entry) = slots[slot_idx] {
+                if entry.key == key {
+                    entry.value = value;
+                    entry.last_access = Instant::now();
+                    entry.access_count += 1;
+                    entry.cost = cost;
+                    entry.size_bytes = size_bytes;
+                    return;
                 }
             }
         }
 
         // Find a slot: either empty or evict lowest-scored
-        let slot_idx = self.find_slot_for_insert();
-
-        let mut slots = self.slots.write();
-        let mut index = self.index.write();
+        let slot_idx = Self::find_slot_for_insert(&slots, self.strategy);
 
         // Remove old entry from index if slot was occupied
         if let Some(ref old_entry) = slots[slot_idx] {
@@ -238,9 +239,8 @@ impl<V: Clone> CacheRing<V> {
         drop(slots);
     }
 
-    fn find_slot_for_insert(&self) -> usize {
-        let slots = self.slots.read();
-        let scorer = EvictionScorer::new(self.strategy);
+    fn find_slot_for_insert(slots: &[Option<CacheEntry<V>>], strategy: EvictionStrategy) -> usize {
+        let scorer = EvictionScorer::new(strategy);
         let now = Instant::now();
 
         let mut best_slot = 0;
@@ -249,7 +249,6 @@ impl<V: Clone> CacheRing<V> {
         for (idx, slot) in slots.iter().enumerate() {
             match slot {
                 None => {
-                    drop(slots);
                     return idx; // Empty slot, use immediately
                 },
                 Some(entry) => {
@@ -263,7 +262,6 @@ impl<V: Clone> CacheRing<V> {
                 },
             }
         }
-        drop(slots);
 
         best_slot
     }
@@ -272,11 +270,13 @@ impl<V: Clone> CacheRing<V> {
     pub fn delete(&self, key: &str) -> bool {
         let key_hash = Self::hash_key(key);
 
+        // Index removal and slot clearing happen under the slot lock (same order as `put`):
+        // in between, the key would be gone for lookups but still listed by scans.
+        let mut slots = self.slots.write();
         let Some(slot_idx) = self.index.write().remove(&key_hash) else {
             return false;
         };
 
-        let mut slots = self.slots.write();
         if let Some(ref entry) = slots[slot_idx] {
             if entry.key == key {
                 slots[slot_idx] = None;
